@@ -3,7 +3,7 @@
 PROP="$1"; TIER="$2"; shift 2
 for p in "$@"; do
   out="$(/verif/tools/scripts/run-mutant.sh "$p" "$PROP" "$TIER" 2>&1)"
-  v="$(echo "$out" | grep -E '^VIOLATION|^violation class|MUTANT-DOES-NOT|PATCH-FAILED|^verif:' | head -3 | tr '\n' ' ')"
-  e="$(echo "$out" | grep -E '^exit=' | tail -1)"
+  v="$(echo "$out" | grep -aE '^VIOLATION|^violation class|MUTANT-DOES-NOT|PATCH-FAILED|^verif:' | head -3 | tr '\n' ' ')"
+  e="$(echo "$out" | grep -aE '^exit=' | tail -1)"
   echo "$(basename "$p") $e $v"
 done
